@@ -4,6 +4,7 @@ import (
 	"fmt"
 	"go/ast"
 	"go/token"
+	"sort"
 	"strconv"
 	"strings"
 )
@@ -375,6 +376,38 @@ func genJsonxVal(repo string, fs facts) (string, error) {
 		depthBalanced = false
 	}
 
+	// 10. parseObjectEntries: which token types are admitted as an object key
+	var keyTokens []string
+	if fd := jx.fn("", "parseObjectEntries"); fd != nil {
+		found := false
+		ast.Inspect(fd, func(n ast.Node) bool {
+			is, ok := n.(*ast.IfStmt)
+			if !ok || found {
+				return !found
+			}
+			un, ok := is.Cond.(*ast.UnaryExpr)
+			if !ok || un.Op != token.NOT || !strings.Contains(jx.src(is.Body), "expectObjectEntry") {
+				return true
+			}
+			found = true
+			ast.Inspect(un.X, func(m ast.Node) bool {
+				if c, ok := m.(*ast.CallExpr); ok {
+					if sel, ok := c.Fun.(*ast.SelectorExpr); ok && sel.Sel.Name == "See" && len(c.Args) == 1 {
+						keyTokens = append(keyTokens, jx.src(c.Args[0]))
+					}
+				}
+				return true
+			})
+			return false
+		})
+		if !found {
+			return "", fmt.Errorf("parseObjectEntries: key admission test not recognised")
+		}
+	} else {
+		return "", fmt.Errorf("parseObjectEntries not found")
+	}
+	sort.Strings(keyTokens)
+
 	var b strings.Builder
 	b.WriteString("import PubModel.C07.Basic\nnamespace PubModel.Gen.JsonxVal\nopen PubModel.C07\n\n")
 	var kw []string
@@ -391,6 +424,11 @@ func genJsonxVal(repo string, fs facts) (string, error) {
 	fmt.Fprintf(&b, "/-- jsonx/encode.go encodeBasic: the tokInt arm converts with big.Int.SetString -/\ndef intConv : Bool := %v\n\n", intConv)
 	fmt.Fprintf(&b, "/-- jsonx/parse_value.go: nesting of objects and lists beyond this is reported as jsonx.tooDeep -/\ndef maxNestingDepth : Option Nat := %s\n\n", depthLimit)
 	fmt.Fprintf(&b, "/-- the nesting counter is balanced: incremented only by enterNested, and each of the %d arms of parseValue that enters a level decrements it exactly once -/\ndef depthBalanced : Bool := %v\n\n", nestedArms, depthBalanced)
+	var kt []string
+	for _, k := range keyTokens {
+		kt = append(kt, leanStr(k))
+	}
+	fmt.Fprintf(&b, "/-- jsonx/parse_value.go parseObjectEntries: token types admitted as an object key (sorted) -/\ndef keyTokenTypes : List String := [%s]\n\n", strings.Join(kt, ", "))
 	b.WriteString("def cfg : Cfg :=\n  { keywords := keywords.map String.toList, operators := operators, expSigns := expSigns,\n    signedFloat := signedFloat, useNumber := useNumber, fmtByte := fmtByte, intConv := intConv }\n\n")
 	b.WriteString("end PubModel.Gen.JsonxVal\n")
 
@@ -403,5 +441,6 @@ func genJsonxVal(repo string, fs facts) (string, error) {
 	fs["jsonx.intConv"] = intConv
 	fs["jsonx.maxNestingDepth"] = depthLimit
 	fs["jsonx.depthBalanced"] = depthBalanced
+	fs["jsonx.keyTokenTypes"] = keyTokens
 	return b.String(), nil
 }
